@@ -935,7 +935,9 @@ theorem frames_delivered_at_rest {s : St} (h : Reachable s) (hc : s.connected = 
             · cases hq
             · split at hq
               · cases hq
-              · simp at hq
+              · split at hq
+                · cases hq
+                · simp at hq
   refine ⟨hrq, ?_⟩
   rw [read_balance h, hrq, hh]; rfl
 
